@@ -1603,6 +1603,9 @@ impl<'a> Model<'a> {
                             }
                         }
                     }
+                    // `set_cells_with_result` stored the number 0 in the cell: dependents
+                    // evaluated in this same pass must read that, not a blank
+                    CalcResult::EmptyCell | CalcResult::EmptyArg => CalcResult::Number(0.0),
                     _ => result,
                 }
             }
